@@ -41,6 +41,47 @@ Theorem C17_dec_enc_paths_f64 :
 Proof. exact dec_enc_paths_f64. Qed.
 Print Assumptions C17_dec_enc_paths_f64.
 
+(* ConvertCPathsToPathsT on an array a CALLER built from the documented layout -- every path an entry, an
+   empty one as [0; 0], A = number of elements, C = number of entries (the library's creators never write an
+   empty entry): exactly those paths come back, the empty ones included, in order *)
+Theorem C17_dec_hand_built :
+  forall (E : Type) (ofc : Z -> E) (toc : E -> option Z) (ezero : E) (cmax : Z),
+    (forall n, 0 <= n < cmax -> toc (ofc n) = Some n) ->
+    forall (D : nat) (ps : cpaths E), (0 < D)%nat -> Forall (Forall (dims E D)) ps ->
+      Z.of_nat (List.length (enc_paths_raw E ofc ezero ps)) < cmax ->
+      dec_paths E toc D (enc_paths_raw E ofc ezero ps) = Some ps.
+Proof. exact dec_enc_paths_raw. Qed.
+Print Assumptions C17_dec_hand_built.
+
+Theorem C17_dec_hand_built_i64 :
+  forall (D : nat) (ps : cpaths Z), (0 < D)%nat -> Forall (Forall (dims Z D)) ps ->
+    Z.of_nat (List.length (enc_paths_raw Z ofc_i64 0 ps)) < 2 ^ 63 ->
+    i64_dec_paths D (enc_paths_raw Z ofc_i64 0 ps) = Some ps.
+Proof. exact dec_hand_built_i64. Qed.
+Print Assumptions C17_dec_hand_built_i64.
+
+Theorem C17_dec_hand_built_f64 :
+  forall (D : nat) (ps : cpaths Z), (0 < D)%nat -> Forall (Forall (dims Z D)) ps ->
+    Z.of_nat (List.length (enc_paths_raw Z ofc_f64 0 ps)) < 2 ^ 53 ->
+    f64_dec_paths D (enc_paths_raw Z ofc_f64 0 ps) = Some ps.
+Proof. exact dec_hand_built_f64. Qed.
+Print Assumptions C17_dec_hand_built_f64.
+
+(* the caller-built array states its own length and entry count, and is the creator's array when no path is empty *)
+Theorem C17_hand_built_len :
+  forall (E : Type) (ofc : Z -> E) (ezero : E) (ps : cpaths E),
+    nth_error (enc_paths_raw E ofc ezero ps) 0 = Some (ofc (Z.of_nat (List.length (enc_paths_raw E ofc ezero ps)))) /\
+    nth_error (enc_paths_raw E ofc ezero ps) 1 = Some (ofc (Z.of_nat (List.length ps))).
+Proof. exact enc_raw_len. Qed.
+Print Assumptions C17_hand_built_len.
+
+Theorem C17_hand_built_is_created :
+  forall (E : Type) (ofc : Z -> E) (ezero : E) (D : nat) (ps : cpaths E),
+    Forall (Forall (dims E D)) ps -> filter nonempty ps = ps ->
+    enc_paths_raw E ofc ezero ps = enc_paths E ofc ezero D ps.
+Proof. exact enc_raw_eq_enc. Qed.
+Print Assumptions C17_hand_built_is_created.
+
 (* CreateCPathsDFromPathsD / ...FromPaths64 answer nullptr for an empty set; nullptr decodes to the empty set *)
 Theorem C17_dec_enc_paths_nullable :
   forall (E : Type) (ofc : Z -> E) (toc : E -> option Z) (ezero : E) (cmax : Z),
